@@ -73,7 +73,7 @@ def build(case, flip):
         if sp["bases"]:
             kw["bases"] = [spaces[i] for i in sp["bases"]]
         if sp.get("params") is not None:
-            ps = ", ".join(p if d is None else "%s=%d" % (p, d) for p, d in sp["params"])
+            ps = ", ".join(p if d is None else "%s=%s" % (p, d) for p, d in sp["params"])
             kw["formula"] = "lambda %s: None" % ps
         s = parent.new_space(sp["name"], **kw)
         spaces.append(s)
